@@ -7,7 +7,8 @@ Line-protocol driver of the C14 model (ByteStream / CAS / AC services and the CA
     cfg <chunk> <maxmsg> <strictW> <strictR> <lenient> <trunccode> <trunctag> <clientEOF>
     store <hash> <size> <hex> | acstore <hash> <size> <hex> <parses 0|1>
     fault put <code> <early 0|1> | fault get <code> | fault fm <code> | fault clear
-    dec <hexin> <c|t|x> <hexout>              declare the decoder's behaviour on one input
+    dec <hexin> <c|t|u|x> <hexout>            declare the decoder's behaviour on one input (u = t, and a
+                                              reader error is reported as io.ErrUnexpectedEOF)
     write <kind> <hash> <size> <eof|e<code>> <senderr> [; <off> <hex> <fin 0|1>]*
     getmode slice | getmode stream <piece> <k|-> <code>   how Get serves ByteStream.Read: eagerly validated
                                                           slice, or streaming CAS buffer failing after k bytes
@@ -16,6 +17,8 @@ Line-protocol driver of the C14 model (ByteStream / CAS / AC services and the CA
     bread <call> [; <bad> <hash> <size>]*
     fmb <call> [; <bad> <hash> <size>]*
     acput <call> <hash> <size> <hex> | acget <call> <hash> <size>
+    cacput <function.instance> <hash> <size> <hex> | cacget <function.instance> <hash> <size>
+                                              the AC client against the AC server (max message 1 MiB)
     cput <z 0|1> <hash> <size> <hex> | cget <z> <hash> <size> | cfm [; [<function.instance>] <hash> <size>]*
     dump
 
@@ -99,7 +102,7 @@ structure S where
   putFault : Option (Nat × Bool) := none
   getFault : Option Nat := none
   fmFault : Option Nat := none
-  decTab : List (Bytes × (Bytes × DFin)) := []
+  decTab : List (Bytes × (Bytes × DFin × Bool)) := []
   /-- `some (piece, fail)`: ByteStream.Read is served from a streaming CAS buffer -/
   getMode : Option (Nat × Option (Nat × Nat)) := none
 
@@ -158,6 +161,18 @@ def rd? : List String → Option RdEntry
     if b then pure ⟨true, ⟨[], 0⟩⟩ else pure ⟨false, ← digest? h sz⟩
   | _ => none
 
+/-- REv2 enumeration value of a digest function name -/
+def fnCode? (name : String) : Option Nat :=
+  [("sha256", 1), ("sha1", 2), ("md5", 3), ("sha384", 5), ("sha512", 6), ("sha256tree", 8),
+   ("blake3", 9), ("gitsha1", 10)].lookup name
+
+/-- digest qualified by the digest function of a `<function>.<instance>` tag: backends key objects
+by function and hash, so every function other than SHA-256 is made part of the key (`ff <code>`) -/
+def tagDigest? (tag h sz : String) : Option Digest := do
+  let code ← fnCode? (String.ofList (tag.toList.takeWhile (· != '.')))
+  let d ← digest? h sz
+  pure (if code = 1 then d else ⟨255 :: code :: d.hash, d.size⟩)
+
 def showErr (e : Err) : String := s!"{e.code} {e.tag}"
 def showKey (d : Digest) : String := s!"{bytesHex d.hash}-{d.size}"
 def showChunks (l : List Bytes) : String := if l.isEmpty then "-" else ",".intercalate (l.map bytesHex)
@@ -171,8 +186,9 @@ def showStore (st : Store) : String :=
 
 def tableCodec (s : S) : Codec :=
   { H := Sha256.hash
-    dec := fun x => match s.decTab.lookup x with | some r => r | none => ([], .corrupt)
-    enc := id }
+    dec := fun x => match s.decTab.lookup x with | some r => (r.1, r.2.1) | none => ([], .corrupt)
+    enc := id
+    masks := fun x => match s.decTab.lookup x with | some r => r.2.2 | none => false }
 
 def idCodec : Codec := { H := Sha256.hash, dec := fun x => (x, .clean), enc := id }
 
@@ -249,9 +265,11 @@ def step (s : S) (line : String) : S × String :=
         | none => (s, "bad-op")
     | _, _ => (s, "bad-op")
   | ["dec", i, f, o] =>
-    let fin : Option DFin := if f == "c" then some .clean else if f == "t" then some .trunc else if f == "x" then some .corrupt else none
+    let fin : Option (DFin × Bool) :=
+      if f == "c" then some (.clean, false) else if f == "t" then some (.trunc, false)
+      else if f == "u" then some (.trunc, true) else if f == "x" then some (.corrupt, false) else none
     match hexBytes? i, fin, hexBytes? o with
-    | some i, some f, some o => ({ s with decTab := (i, (o, f)) :: s.decTab }, "ok")
+    | some i, some f, some o => ({ s with decTab := (i, (o, f.1, f.2)) :: s.decTab }, "ok")
     | _, _, _ => (s, "bad-op")
   | "write" :: k :: h :: sz :: e :: se :: rest =>
     match kind? k, digest? h sz, end? e, nat? se, (sections? rest).bind (·.mapM msg?) with
@@ -306,6 +324,19 @@ def step (s : S) (line : String) : S × String :=
         | .ok m => s!"ok {bytesHex m}"
         | .error e => s!"err {showErr e}")
     | _, _ => (s, "bad-op")
+  | ["cacput", tag, h, sz, x] =>
+    match tagDigest? tag h sz, hexBytes? x with
+    | some d, some m =>
+      let r := acUpdate s.ac none d m s.putFault
+      ({ s with ac := r.1 }, match r.2 with | none => "ok" | some e => s!"err {showErr e}")
+    | _, _ => (s, "bad-op")
+  | ["cacget", tag, h, sz] =>
+    match tagDigest? tag h sz with
+    | some d =>
+      (s, match acGet (fun m => !s.garbage.contains m) s.ac none d 1048576 s.getFault with
+        | .ok m => s!"ok {bytesHex m}"
+        | .error e => s!"err {showErr e}")
+    | none => (s, "bad-op")
   | ["cput", z, h, sz, x] =>
     match bool? z, digest? h sz, hexBytes? x with
     | some z, some d, some data =>
@@ -326,7 +357,7 @@ def step (s : S) (line : String) : S × String :=
     let ent? (ws : List String) : Option (String × Digest) :=
       match ws with
       | [h, sz] => (digest? h sz).map fun d => ("sha256.-", d)
-      | [tag, h, sz] => (digest? h sz).map fun d => (tag, d)
+      | [tag, h, sz] => (tagDigest? tag h sz).map fun d => (tag, d)
       | _ => none
     match (sections? rest).bind (·.mapM ent?) with
     | some es =>
